@@ -120,6 +120,11 @@ func (rs *ResourceSubscription) Unsubscribe(sub Subscriber) {
 			}
 		}
 		if sub != nil {
+			// If the subscriber is no longer a member, its count has already
+			// been released by a delete event.
+			if _, ok := rs.subs[sub]; !ok {
+				return
+			}
 			delete(rs.subs, sub)
 		}
 
